@@ -55,6 +55,7 @@ type VState struct {
 	HasLeaderUpdate                                     bool
 	LeaderUpdate                                        pb.LeaderUpdate
 	PrevState                                           pb.State
+	LogQuery                                            *pb.LogQueryResult
 }
 
 func vremotes(m map[uint64]*remote, kind int, out []VRemote) []VRemote {
@@ -76,7 +77,7 @@ func VInspect(p *Peer) VState {
 		IsTransferTarget: r.isLeaderTransferTarget, PendingCC: r.pendingConfigChange,
 		Quiesce: r.quiesce, Snapshotting: r.snapshotting, ElectionTick: r.electionTick,
 		HeartbeatTick: r.heartbeatTick, RandTimeout: r.randomizedElectionTimeout,
-		TickCount: r.tickCount, PrevState: p.prevState}
+		TickCount: r.tickCount, PrevState: p.prevState, LogQuery: r.logQueryResult}
 	if t, err := r.log.term(s.FirstIndex - 1); err == nil {
 		s.MarkerTerm = t
 	}
